@@ -1058,6 +1058,11 @@ func (hash *SexpHash) SexpString(ps *PrintState) string {
 }
 
 func (r *SexpHash) Type() *RegisteredType {
+	// an instance of a declared struct keeps the declaration it was made
+	// under: after a redeclaration it is not a value of the new struct type.
+	if r.GoStructFactory != nil && r.GoStructFactory.UserStructDefn != nil {
+		return r.GoStructFactory
+	}
 	return GoStructRegistry.Registry[r.TypeName]
 }
 
